@@ -5,7 +5,7 @@ SPEC = {
         {"comp": "send_buffer", "module": "QV.Model.SendBuffer", "quick": 1200, "thorough": 30000},
         {"comp": "range_set", "module": "QV.Model.RangeSet", "quick": 1000, "thorough": 30000},
         {"comp": "array_range_set", "module": "QV.Model.ArrayRangeSet", "quick": 1000, "thorough": 30000},
-        {"comp": "sim_c01", "module": "QV.Sys.MonC01", "quick": 60, "thorough": 1500},
+        {"comp": "sim_c01", "module": "QV.Sys.MonC01", "quick": 120, "thorough": 1500},
     ],
     "assumptions": [
         "a frame delivered to the receiver is a frame produced by the sender (authenticity: C04); an acknowledged or lost range was in flight (C12)",
